@@ -7,6 +7,7 @@ CONSTANTS
   Lo = 100
   Hi = 3000
   Step = 7
+  MaxRbf = 7
   MaxRatio = 8
 INVARIANTS NegDump
 CHECK_DEADLOCK FALSE
